@@ -6,8 +6,10 @@
 
 #include <nstd/String.hpp>
 
-// the forms in which one and the same text is handed to the library (see the KEY_STRING build below)
-static const int NORIGIN = 6;
+// the forms in which one and the same text is handed to the library (see the KEY_STRING build below): every way a
+// String of that text comes into being.  Form ids 0..8 and 10..12; 9 (and anything else) = rotate on every use.
+static const int FORMS[] = {0, 1, 2, 3, 4, 5, 6, 7, 8, 10, 11, 12};
+static const int NORIGIN = (int)(sizeof(FORMS) / sizeof(FORMS[0]));
 static int g_origin = 0;
 static unsigned g_rot = 0;
 
@@ -24,20 +26,70 @@ struct StrForm
     case 2:
       buf = (char*)malloc(len + 3);
       buf[0] = 0x7e; memcpy(buf + 1, b, len); buf[len + 1] = 0x7e; buf[len + 2] = 0x7e;
+      s = String("previously owned", 16);      // attach releases the block owned before
       s.attach(buf + 1, len);
       break;
-    case 3: aux = String(b, len); s = aux; break;
+    case 3: aux = String(b, len); s = String("previously owned", 16); s = aux; break;
     case 4:
       buf = (char*)malloc(len + 1);
       memcpy(buf, b, len); buf[len] = 0;
       s.attach(buf, len);
       break;
-    default:
+    case 5:
       if(len == 0) break;       // String()
       buf = (char*)malloc(len + 1);
       memcpy(buf, b, len); buf[len] = 0x01;
       s.attach(buf, len);
       break;
+    case 6:                     // String(capacity), then append(const char*, len)
+    {
+      String t(len + 5);
+      t.append(b, len);
+      s = t;
+      const char* q = s;        // conversion of a non-const String
+      if(q[len]) abort();
+      break;
+    }
+    case 7:                     // built character by character from String()
+    {
+      for(usize i = 0; i < len; ++i) s.append(b[i]);
+      if(len & 1) { char* w = s; if(w[len]) abort(); }       // mutable conversion: private, terminated
+      if(s.isEmpty() != (len == 0)) abort();
+      break;
+    }
+    case 8:                     // substr of a larger String (positive / negative start)
+    {
+      buf = (char*)malloc(len + 4);
+      buf[0] = 0x7e; buf[1] = 0x7e; memcpy(buf + 2, b, len); buf[len + 2] = 0x7e; buf[len + 3] = 0x7e;
+      aux = String(buf, len + 4);
+      s = (len & 1) ? aux.substr(-(ssize)(len + 2), (ssize)len) : aux.substr(2, (ssize)len);
+      if(len == 0 && aux.substr(2).length() != 2) abort();
+      break;
+    }
+    case 10:                    // cleared (own block kept / shared block dropped), then append(const String&)
+    {
+      s = String("zzzzzzzzzzzz", 12);
+      if(len & 1) aux = s;      // shared: clear() lets go of the block
+      s.clear();
+      s.append(String(b, len));
+      break;
+    }
+    case 11:                    // longer text cut back in place by resize
+    {
+      s = String(b, len);
+      s.append("junk", 4);
+      s.resize(len);
+      break;
+    }
+    default:                    // 12: assigned from an attached (unowned, unterminated) view: operator= copies
+    {
+      buf = (char*)malloc(len + 2);
+      memcpy(buf, b, len); buf[len] = 0x7e; buf[len + 1] = 0x7e;
+      aux.attach(buf, len);
+      s = String("previously owned", 16);
+      s = aux;
+      break;
+    }
     }
   }
   ~StrForm() { free(buf); }
@@ -67,7 +119,9 @@ static usize keyText(int k, char* b)
 static int pickOrigin(int origin)
 {
   if(origin < 0) origin = g_origin;
-  return origin >= NORIGIN ? (int)(g_rot++ % NORIGIN) : origin;
+  for(int i = 0; i < NORIGIN; ++i)
+    if(FORMS[i] == origin) return origin;
+  return FORMS[g_rot++ % NORIGIN];
 }
 struct KeyArg
 {
@@ -443,6 +497,11 @@ template<class C> struct Runner
     if(hxIs(l, "appendAll", 1)) return opAppendAll(c, o);
     if(hxIs(l, "removeAll", 1)) return opRemoveAll(c, o);
     if(hxIs(l, "setval", 3)) return opSetVal(c, (int)hxNum(l, 2), (int)hxNum(l, 3));
+    // the object itself as the `other` argument
+    if(hxIs(l, "assignSelf", 1)) return opAssign(c, *t[v]);
+    if(hxIs(l, "swapSelf", 1)) { c.swap(*t[v]); return true; }
+    if(hxIs(l, "appendSelf", 1)) return opAppendAll(c, *t[v]);
+    if(hxIs(l, "removeSelf", 1)) return opRemoveAll(c, *t[v]);
     return false;
   }
 };
@@ -512,12 +571,12 @@ int main()
       size_t len = 0;
       char* d = hxCStr(l.tok[1], len);
       {
-        usize hv[NORIGIN];
+        usize hv[sizeof(FORMS) / sizeof(FORMS[0])];
         bool same = true;
         StrForm ref(d, len, 0);
         for(int o = 0; o < NORIGIN; ++o)
         {
-          StrForm f(d, len, o);
+          StrForm f(d, len, FORMS[o]);
           if(!(f.s == ref.s) || f.s != ref.s) same = false;     // the forms are equal strings
           hv[o] = hash(f.s);
           if(hv[o] != hv[0]) same = false;
